@@ -1,27 +1,47 @@
-"""C16 instrumentation: counting / crashing proxies put in place of the names that
-`pydrobert.torch.training` uses for file-system mutation (`os`, `tempfile`, `open`, `torch`),
-from OUTSIDE the library (module attributes shadowed inside a context manager).
+"""C16 instrumentation: crash points are FILE-SYSTEM MUTATIONS, whatever Python API makes them.
 
-A *mutating call* is announced to the `Tracer` before it is executed. When the tracer's crash
-index is reached the call is NOT executed, the tracer is marked dead and `Crash` (a
-BaseException) is raised. Two kinds of death:
-  hard (kill -9): from then on every further mutating call also raises, so nothing the library does
-       while unwinding (`except:` / `with` exits) reaches the disk;
+What is intercepted (for the duration of `instrumented(tr)`; everything is restored afterwards):
+
+  * the functions every route to the file system goes through, patched ON THE MODULES THAT OWN THEM —
+    `builtins.open` / `io.open` (hence `os.fdopen`, `tempfile.NamedTemporaryFile`, `pathlib.Path.open`,
+    `codecs.open`, `shutil.copyfile`), `os.open` (hence `tempfile.mkstemp`, `Path.touch`), `os.write`,
+    `os.sendfile` / `os.copy_file_range` (shutil's fast copy), `os.ftruncate` / `os.truncate`,
+    `os.replace` / `os.rename` (hence `shutil.move`, `Path.rename/replace`), `os.remove` / `os.unlink`,
+    `os.mkdir` (hence `os.makedirs`, `Path.mkdir`), `os.rmdir`, `os.link` / `os.symlink`, `torch.save`;
+  * names a library module bound to one of these functions at import time (`from os import replace`,
+    `from tempfile import NamedTemporaryFile`, `from torch import save`): every global of
+    `pydrobert.torch.training` that IS one of the patched originals is shadowed too (identity scan);
+  * every file object opened for writing / appending / updating is handed out as a `_FileProxy` with FULL
+    delegation (`__getattr__`: fileno, flush, name, buffer, seek, …): only `write` / `writelines` /
+    `truncate` are events; a write goes through to the OS file at once (write + flush), so what was
+    written before an interrupt is in the file (with SIGKILL the still-buffered bytes are lost instead,
+    which is the crash point one event earlier);
+  * `torch.save(obj, path)` = open(path, "wb") + ONE write of the serialised bytes; `torch.save(obj, file
+    object)` = ONE `file.write(serialised bytes)` (the zip writer makes the same bytes in several writes);
+    `torch.save(obj, io.BytesIO())` is not a file-system mutation and passes through untouched.
+
+Only paths inside `Tracer.root` (the scenario's workspace) are events; anything else passes through.
+
+An *event* is announced to the `Tracer` BEFORE it is executed: [kind, path, …] with kind in
+  mkdir | create | truncate | open (a file opened for writing that exists already: nothing changes) |
+  write (data) | replace (src, dst) | remove | rmdir | meta (chmod/utime: content unchanged) | other.
+When the tracer's crash index is reached the event is NOT executed, the tracer is marked dead and `Crash`
+(a BaseException) is raised — or, `torn` and the event a write, half of the data is written first. Deaths:
+  hard (kill -9): from then on every further event also raises, so nothing the library does while
+       unwinding (`except:` / `with` exits) reaches the disk;
   soft (KeyboardInterrupt / SystemExit): the exception unwinds through the library's handlers and
-       whatever they do to the disk IS executed and recorded in `Tracer.after` (the model says: nothing).
-Calls made while the tracer is not armed (constructor, loading) are recorded in `Tracer.idle`.
+       whatever they do to the disk IS executed and recorded in `Tracer.after`.
+Events made while the tracer is not armed (constructor, loading) are recorded in `Tracer.idle`.
 
-History file: every `f.write(text)` on the file object returned by `open(path, "a")` is a mutating
-call of its own (`hwrite`) and reaches the file at once (write + flush): `csv.writer.writerow` makes
-exactly one such call per line, so "header line written, data row not" is a crash point (it is what
-an interrupt between the two `writerow` calls leaves behind: the `with` block flushes the header).
-`open_a` (creates the file when absent) is one more call. A torn `hwrite` of a data row writes the
-first half of the line.
+The JUDGEMENT is never made on these events: `c16_run.abstract_trace` turns them into the state changes
+they make (a temp file appears / is complete, a line is appended to the history, a rename, a removal) and
+everything is judged on the directory and file states left behind.
 """
 import builtins
 import contextlib
+import io as _io
 import os as _os
-import tempfile as _tempfile
+import sys
 
 
 class Crash(BaseException):
@@ -29,17 +49,55 @@ class Crash(BaseException):
 
 
 class Tracer:
-    def __init__(self, crash_at=None, torn=False):
-        self.ops = []          # executed mutating calls of the current update: [kind, arg...]
-        self.crash_at = crash_at
-        self.torn = torn
+    def __init__(self, root=None):
+        self.root = _os.path.abspath(root) if root else None
+        self.ops = []          # executed events of the current update
+        self.crash_at = None
+        self.torn = False
         self.soft = False
         self.dead = False
-        self.armed = False     # crash index counts only calls made while armed
+        self.armed = False     # crash index counts only events made while armed
         self.n = 0
-        self.unexpected = []   # mutating entry points the model knows nothing about
-        self.after = []        # soft death: mutating calls made while the exception unwinds
-        self.idle = []         # mutating calls made while not armed (constructor, load, ...)
+        self.after = []        # soft death: events made while the exception unwinds
+        self.idle = []         # events made while not armed (constructor, load, ...)
+        self.fds = {}          # os-level file descriptor -> path (os.open / proxies)
+        self.atomic = None     # data -> bool: a write that is never torn (set by the scenario runner)
+        self.line_paths = set()  # files whose LINES are the unit that reaches the disk (see `feed`)
+        self.pending = {}      # path -> beginning of a line that was written but not ended yet
+
+    def feed(self, path, data):
+        """Line-buffered files (the history csv): the bytes of a line reach the file when the line is complete,
+        however many write() calls it took (`print(row, file=f)` is two, `writelines([row, eol])` too) - the
+        check's standing assumption is that a history line reaches the file whole or not at all; a line cut in the
+        middle is exercised on purpose by `torn`, not as a by-product of how a line is handed to write().
+        -> the data to write NOW as one event (None: nothing yet)."""
+        if path not in self.line_paths:
+            return data
+        buf = self.pending.pop(path, None)
+        buf = data if buf is None else buf + data
+        nl = "\n" if isinstance(buf, str) else b"\n"
+        i = buf.rfind(nl)
+        if i < 0:
+            self.pending[path] = buf
+            return None
+        if i + 1 < len(buf):
+            self.pending[path] = buf[i + 1:]
+        return buf[: i + 1]
+
+    def drain(self, path):
+        """flush() / close(): an unfinished line does reach the file."""
+        return self.pending.pop(path, None)
+
+    def inside(self, path):
+        if self.root is None:
+            return True
+        try:
+            p = _os.path.abspath(_os.fspath(path))
+        except TypeError:
+            return False
+        if isinstance(p, bytes):
+            p = _os.fsdecode(p)
+        return p == self.root or p.startswith(self.root + _os.sep)
 
     def arm(self, crash_at, torn=False, soft=False):
         self.ops = []
@@ -54,18 +112,21 @@ class Tracer:
         self.crash_at = None
 
     def mut(self, kind, *args, tearable=False):
-        """Announce a mutating call. Returns True when the call is to be torn (write half, die)."""
+        """Announce an event. Returns True when it is to be torn (write half, then die)."""
         if self.dead:
             if self.soft:
-                self.after.append([kind] + [str(a) for a in args[:2]])
+                self.after.append([kind] + list(args))
                 return False
             raise Crash()
         if not self.armed:
-            self.idle.append([kind] + [str(a) for a in args[:2]])
+            self.idle.append([kind] + list(args))
             return False
         if self.crash_at is not None and self.n == self.crash_at:
             self.dead = True
+            if tearable and self.atomic is not None and len(args) > 1 and self.atomic(args[1]):
+                tearable = False
             if self.torn and tearable:
+                self.ops.append([kind] + list(args) + ["torn"])
                 return True
             raise Crash()
         self.n += 1
@@ -73,159 +134,408 @@ class Tracer:
         return False
 
 
-class OsProxy:
-    """Stands in for the `os` module inside training.py."""
-
-    _MUT = ("rename", "renames", "unlink", "rmdir", "removedirs", "mkdir", "link", "symlink", "truncate",
-            "chmod", "utime", "mkfifo", "open", "write")
-
-    def __init__(self, tr):
-        self._tr = tr
-        self.path = _os.path
-
-    def __getattr__(self, name):
-        real = getattr(_os, name)
-        if name in OsProxy._MUT:
-            def f(*a, **k):
-                self._tr.unexpected.append("os." + name)
-                self._tr.mut("os." + name, *[str(x) for x in a[:2]])
-                return real(*a, **k)
-            return f
-        return real
-
-    def replace(self, src, dst, **k):
-        self._tr.mut("replace", str(src), str(dst))
-        return _os.replace(src, dst, **k)
-
-    def remove(self, p, **k):
-        self._tr.mut("remove", str(p))
-        return _os.remove(p, **k)
-
-    def makedirs(self, p, *a, **k):
-        self._tr.mut("mkdirs", str(p))
-        return _os.makedirs(p, *a, **k)
+def _spath(p):
+    p = _os.fspath(p)
+    if isinstance(p, bytes):
+        p = _os.fsdecode(p)
+    return _os.path.abspath(p)
 
 
-class TempfileProxy:
-    def __init__(self, tr):
-        self._tr = tr
+class _FileProxy:
+    """A file object opened for writing: everything is delegated to the real object, writes are events that
+    reach the OS file at once."""
 
-    def __getattr__(self, name):
-        real = getattr(_tempfile, name)
-        if name in ("mkstemp", "mkdtemp", "TemporaryFile", "TemporaryDirectory", "SpooledTemporaryFile"):
-            def f(*a, **k):
-                self._tr.unexpected.append("tempfile." + name)
-                self._tr.mut("tempfile." + name)
-                return real(*a, **k)
-            return f
-        return real
+    def __init__(self, tr, real, path, inplace=False):
+        object.__setattr__(self, "_tr", tr)
+        object.__setattr__(self, "_real", real)
+        object.__setattr__(self, "_path", path)
+        object.__setattr__(self, "_inplace", inplace)
+        try:
+            tr.fds[real.fileno()] = path
+            object.__setattr__(self, "_fd", real.fileno())
+        except Exception:
+            object.__setattr__(self, "_fd", None)
 
-    def NamedTemporaryFile(self, *a, **k):
-        self._tr.mut("mktemp", str(k.get("dir")))
-        f = _tempfile.NamedTemporaryFile(*a, **k)
-        self._tr.ops[-1].append(f.name)
-        if k.get("delete", True):
-            self._tr.unexpected.append("NamedTemporaryFile(delete=True)")
-        return f
-
-
-class TorchProxy:
-    def __init__(self, tr):
-        import torch
-        self._tr = tr
-        self._torch = torch
-
-    def __getattr__(self, name):
-        return getattr(self._torch, name)
-
-    def save(self, obj, f, *a, **k):
-        name = getattr(f, "name", None) if not isinstance(f, (str, bytes)) else f
-        torn = self._tr.mut("write", str(name), tearable=True)
-        if torn:
-            import io
-            b = io.BytesIO()
-            self._torch.save(obj, b, *a, **k)
-            data = b.getvalue()
-            if isinstance(f, (str, bytes)):
-                with builtins.open(f, "wb") as g:
-                    g.write(data[: len(data) // 2])
-            else:
-                f.write(data[: len(data) // 2])
-                f.flush()
-            raise Crash()
-        return self._torch.save(obj, f, *a, **k)
-
-
-class _AppendFile:
-    """Text file opened for append/write: every write() is a mutating call that reaches the disk at once."""
-
-    def __init__(self, tr, real, path):
-        self._tr, self._real, self._path = tr, real, path
-        self._closed = False
-
+    # ---- the events
     def write(self, s):
-        # a data row can be torn; the header line (first field "epoch") is atomic in the model
-        torn = self._tr.mut("hwrite", str(self._path), s, tearable=not s.startswith("epoch,"))
-        if torn:
-            self._real.write(s[: len(s) // 2])
+        if len(s) == 0:
+            return self._real.write(s)
+        if self._inplace:
+            self._tr.mut("other", "write-in-place", self._path)
+            r = self._real.write(s)
             self._real.flush()
+            return r
+        now = self._tr.feed(self._path, s)
+        if now is not None:
+            self._emit(now)
+        return len(s)
+
+    def _emit(self, s):
+        try:
+            torn = self._tr.mut("write", self._path, s, tearable=True)
+        except Crash:
+            self._tr.pending.pop(self._path, None)
+            raise
+        if torn:
+            half = s[: len(s) // 2]
+            self._tr.ops[-1][2] = half
+            self._real.write(half)
+            self._real.flush()
+            self._tr.pending.pop(self._path, None)
             raise Crash()
         self._real.write(s)
         self._real.flush()
-        return len(s)
+
+    def flush(self):
+        rest = self._tr.drain(self._path)
+        if rest:
+            self._emit(rest)
+        return self._real.flush()
 
     def writelines(self, ls):
         for s in ls:
             self.write(s)
 
-    def flush(self):
-        pass
+    def truncate(self, *a):
+        self._tr.mut("truncate", self._path)
+        return self._real.truncate(*a)
 
+    # ---- plumbing
     def close(self):
-        if self._closed:
-            return
-        self._closed = True
-        self._real.close()
+        fd = self._fd
+        if fd is not None and self._tr.fds.get(fd) == self._path:
+            self._tr.fds.pop(fd, None)
+        try:
+            if not self._real.closed:
+                rest = self._tr.drain(self._path)
+                if rest:
+                    self._emit(rest)
+        finally:
+            self._real.close()
+
+    def __getattr__(self, name):
+        return getattr(object.__getattribute__(self, "_real"), name)
+
+    def __setattr__(self, name, value):
+        setattr(self._real, name, value)
 
     def __enter__(self):
+        self._real.__enter__()
         return self
 
     def __exit__(self, *exc):
         self.close()
         return False
 
+    def __iter__(self):
+        return iter(self._real)
 
-def make_open(tr):
-    def _open(path, mode="r", *a, **k):
-        if any(c in mode for c in "wax+"):
-            tr.mut("open_" + mode.replace("t", ""), str(path), _os.path.exists(path))
-            real = builtins.open(path, mode, *a, **k)
-            if "b" in mode or "+" in mode:
-                # a way of writing the model knows nothing about: reported, and left to work as it is
-                tr.unexpected.append(f"open({mode})")
-                return real
-            return _AppendFile(tr, real, path)
-        return builtins.open(path, mode, *a, **k)
-    return _open
+    def __next__(self):
+        return next(self._real)
+
+
+_W_FLAGS = _os.O_WRONLY | _os.O_RDWR | _os.O_CREAT | _os.O_TRUNC | _os.O_APPEND
+
+
+def _nonempty(path):
+    try:
+        return _os.path.getsize(path) > 0
+    except OSError:
+        return False
+
+
+class _Patches:
+    """The wrappers, bound to one tracer. `real` holds the originals."""
+
+    def __init__(self, tr):
+        import torch
+        self.tr = tr
+        self.torch = torch
+        self.real = {
+            ("builtins", "open"): builtins.open, ("io", "open"): _io.open,
+            ("torch", "save"): torch.save, ("torch.serialization", "save"): torch.serialization.save,
+        }
+        for name in ("open", "close", "write", "sendfile", "copy_file_range", "ftruncate", "truncate", "replace",
+                     "rename", "remove", "unlink", "mkdir", "rmdir", "link", "symlink", "chmod", "utime", "pwrite",
+                     "writev"):
+            if hasattr(_os, name):
+                self.real[("os", name)] = getattr(_os, name)
+        self.wrap = {}
+        for (mod, name), fn in self.real.items():
+            w = getattr(self, f"w_{mod.split('.')[0]}_{name}", None)
+            if w is None:
+                w = self._generic(mod, name, fn)
+            self.wrap[(mod, name)] = w
+
+    # ---- open
+    def _open_event(self, path, creating, truncating):
+        exists = _os.path.exists(path)
+        if not exists:
+            if creating:
+                self.tr.mut("create", path)
+            return
+        if truncating and _nonempty(path):
+            self.tr.mut("truncate", path)
+        else:
+            self.tr.mut("open", path)
+
+    def _do_open(self, real_open, file, mode="r", *a, **k):
+        writing = any(c in mode for c in "wax+")
+        if not writing:
+            return real_open(file, mode, *a, **k)
+        tr = self.tr
+        if isinstance(file, int):
+            path = tr.fds.get(file)
+            f = real_open(file, mode, *a, **k)
+            if path is None:
+                return f
+            return _FileProxy(tr, f, path, inplace="+" in mode and "a" not in mode and "w" not in mode)
+        if k.get("opener") is not None:
+            # the path is decided by the opener (tempfile.NamedTemporaryFile): it goes through os.open, which
+            # announces the creation and registers the descriptor
+            f = real_open(file, mode, *a, **k)
+            try:
+                path = tr.fds.get(f.fileno())
+            except Exception:
+                path = None
+            if path is None:
+                return f
+            return _FileProxy(tr, f, path)
+        try:
+            path = _spath(file)
+        except TypeError:
+            return real_open(file, mode, *a, **k)
+        if not tr.inside(path):
+            return real_open(file, mode, *a, **k)
+        self._open_event(path, creating=any(c in mode for c in "wax"), truncating="w" in mode)
+        f = real_open(file, mode, *a, **k)
+        return _FileProxy(tr, f, path, inplace="+" in mode and "a" not in mode and "w" not in mode)
+
+    def w_builtins_open(self, file, mode="r", *a, **k):
+        return self._do_open(self.real[("builtins", "open")], file, mode, *a, **k)
+
+    def w_io_open(self, file, mode="r", *a, **k):
+        return self._do_open(self.real[("io", "open")], file, mode, *a, **k)
+
+    def w_os_open(self, path, flags, *a, **k):
+        real = self.real[("os", "open")]
+        if not (flags & _W_FLAGS) or k.get("dir_fd") is not None:
+            return real(path, flags, *a, **k)
+        try:
+            p = _spath(path)
+        except TypeError:
+            return real(path, flags, *a, **k)
+        if not self.tr.inside(p):
+            return real(path, flags, *a, **k)
+        self._open_event(p, creating=bool(flags & _os.O_CREAT), truncating=bool(flags & _os.O_TRUNC))
+        fd = real(path, flags, *a, **k)
+        self.tr.fds[fd] = p
+        return fd
+
+    def w_os_close(self, fd):
+        path = self.tr.fds.pop(fd, None)
+        try:
+            if path is not None and path not in self.tr.fds.values():
+                rest = self.tr.drain(path)
+                if rest:
+                    self._fd_emit(fd, path, rest)
+        finally:
+            self.real[("os", "close")](fd)
+
+    def _fd_emit(self, fd, path, data):
+        real = self.real[("os", "write")]
+        try:
+            torn = self.tr.mut("write", path, data, tearable=True)
+        except Crash:
+            self.tr.pending.pop(path, None)
+            raise
+        if torn:
+            half = data[: len(data) // 2]
+            self.tr.ops[-1][2] = half
+            real(fd, half)
+            self.tr.pending.pop(path, None)
+            raise Crash()
+        real(fd, data)
+
+    def _fd_write(self, name, fd, data, *a, **k):
+        real = self.real[("os", name)]
+        path = self.tr.fds.get(fd)
+        if path is None:
+            return real(fd, data, *a, **k)
+        data = bytes(data)
+        now = self.tr.feed(path, data)
+        if now is not None:
+            self._fd_emit(fd, path, now)
+        return len(data)
+
+    def w_os_write(self, fd, data):
+        return self._fd_write("write", fd, data)
+
+    def w_os_pwrite(self, fd, data, offset):
+        path = self.tr.fds.get(fd)
+        if path is not None:
+            self.tr.mut("other", "pwrite", path)
+        return self.real[("os", "pwrite")](fd, data, offset)
+
+    def w_os_writev(self, fd, buffers):
+        path = self.tr.fds.get(fd)
+        if path is not None:
+            return self._fd_write("write", fd, b"".join(bytes(b) for b in buffers))
+        return self.real[("os", "writev")](fd, buffers)
+
+    def _fd_copy(self, name, out_pos):
+        real = self.real[("os", name)]
+
+        def w(*a, **k):
+            fd = a[out_pos] if len(a) > out_pos else None
+            path = self.tr.fds.get(fd)
+            if path is not None:
+                # bytes arrive in the file without passing a write(): one event per call, content unknown
+                self.tr.mut("write", path, None)
+            return real(*a, **k)
+        return w
+
+    def w_os_sendfile(self, *a, **k):
+        return self._fd_copy("sendfile", 0)(*a, **k)
+
+    def w_os_copy_file_range(self, *a, **k):
+        return self._fd_copy("copy_file_range", 1)(*a, **k)
+
+    def w_os_ftruncate(self, fd, length):
+        path = self.tr.fds.get(fd)
+        if path is not None:
+            self.tr.mut("truncate", path)
+        return self.real[("os", "ftruncate")](fd, length)
+
+    # ---- path operations
+    def _two(self, name, kind):
+        real = self.real[("os", name)]
+
+        def w(src, dst, *a, **k):
+            try:
+                s, d = _spath(src), _spath(dst)
+            except TypeError:
+                return real(src, dst, *a, **k)
+            if self.tr.inside(s) or self.tr.inside(d):
+                self.tr.mut(kind, s, d)
+            return real(src, dst, *a, **k)
+        return w
+
+    def _one(self, name, kind, *extra):
+        real = self.real[("os", name)]
+
+        def w(path, *a, **k):
+            try:
+                p = _spath(path)
+            except TypeError:
+                return real(path, *a, **k)
+            if self.tr.inside(p):
+                self.tr.mut(kind, *extra, p)
+            return real(path, *a, **k)
+        return w
+
+    def _generic(self, mod, name, fn):
+        if mod != "os":
+            return fn
+        if name in ("replace", "rename"):
+            return self._two(name, "replace")
+        if name in ("link", "symlink"):
+            return self._two(name, "other")
+        if name in ("remove", "unlink"):
+            real = self.real[("os", name)]
+
+            def w(path, *a, **k):
+                try:
+                    p = _spath(path)
+                except TypeError:
+                    return real(path, *a, **k)
+                if self.tr.inside(p):
+                    # removing what is not there changes nothing (Path.unlink(missing_ok=True), a racing clean-up)
+                    self.tr.mut("remove" if _os.path.lexists(p) else "meta", p)
+                return real(path, *a, **k)
+            return w
+        if name == "mkdir":
+            return self._one(name, "mkdir")
+        if name == "rmdir":
+            return self._one(name, "rmdir")
+        if name == "truncate":
+            return self._one(name, "truncate")
+        if name in ("chmod", "utime"):
+            return self._one(name, "meta")
+        return fn
+
+    # ---- torch.save
+    def _serialise(self, obj, a, k):
+        b = _io.BytesIO()
+        self.real[("torch", "save")](obj, b, *a, **k)
+        return b.getvalue()
+
+    def w_torch_save(self, obj, f, *a, **k):
+        real = self.real[("torch", "save")]
+        if isinstance(f, (str, bytes, _os.PathLike)):
+            if not self.tr.inside(_spath(f)):
+                return real(obj, f, *a, **k)
+            data = self._serialise(obj, a, k)
+            with self.w_builtins_open(f, "wb") as g:
+                g.write(data)
+            return None
+        if isinstance(f, _io.BytesIO) or not hasattr(f, "write"):
+            return real(obj, f, *a, **k)        # an in-memory buffer: not a file-system mutation
+        target = f
+        for _ in range(3):                       # tempfile wrappers keep the file object in `.file`
+            if isinstance(target, _FileProxy):
+                break
+            target = getattr(target, "file", None)
+            if target is None:
+                break
+        if not isinstance(target, _FileProxy):
+            return real(obj, f, *a, **k)
+        f.write(self._serialise(obj, a, k))
+        return None
+
+
+_SCAN = {}
+
+
+def _bound_names(pt):
+    """(module, name, original) for every global of the library's modules (and of tempfile / shutil) that IS one of
+    the patched originals (`from os import replace`, `from torch import save`, ...). Computed once per set of
+    loaded library modules."""
+    import tempfile
+    import shutil
+    key = (id(sys.modules.get("pydrobert.torch.training")), len(sys.modules))
+    if _SCAN.get("key") != key:
+        lib = tuple(m for n, m in list(sys.modules.items())
+                    if m is not None and n.startswith("pydrobert.torch"))
+        by_id = {id(fn): key_ for key_, fn in pt.real.items() if pt.wrap[key_] is not fn}
+        found = []
+        for m in lib + (tempfile, shutil):
+            for name, val in list(vars(m).items()):
+                k = by_id.get(id(val))
+                if k is not None:
+                    found.append((m, name, k))
+        _SCAN["key"], _SCAN["found"] = key, found
+    return _SCAN["found"]
 
 
 @contextlib.contextmanager
 def instrumented(tr):
-    """Shadow training.os / tempfile / open / torch with proxies bound to tracer `tr`."""
+    """Route every file-system mutation of the process through tracer `tr` (see the module docstring)."""
     from pydrobert.torch import training
-    saved = {k: training.__dict__.get(k, _MISSING) for k in ("os", "tempfile", "open", "torch")}
+    pt = _Patches(tr)
+    mods = {"builtins": builtins, "io": _io, "os": _os, "torch": pt.torch, "torch.serialization": pt.torch.serialization}
+    saved = []
     try:
-        training.os = OsProxy(tr)
-        training.tempfile = TempfileProxy(tr)
-        training.open = make_open(tr)
-        training.torch = TorchProxy(tr)
+        bound = _bound_names(pt)        # before anything is patched: identities of the originals
+        for (mod, name), w in pt.wrap.items():
+            if w is pt.real[(mod, name)]:
+                continue
+            saved.append((mods[mod], name, getattr(mods[mod], name)))
+            setattr(mods[mod], name, w)
+        for m, name, k in bound:
+            saved.append((m, name, getattr(m, name)))
+            setattr(m, name, pt.wrap[k])
         yield training
     finally:
-        for k, v in saved.items():
-            if v is _MISSING:
-                training.__dict__.pop(k, None)
-            else:
-                setattr(training, k, v)
-
-
-_MISSING = object()
+        for m, name, val in reversed(saved):
+            setattr(m, name, val)
